@@ -2,8 +2,8 @@ CONSTANTS
   Owners = {"o1","o2"}
   Data <- MCData
   Presets <- MCPresets
-  ValidSchemes = {"sha256","x509","sha1"}
-  Decodable = {"sha256","x509"}
+  ValidSchemes = {"sha256","x509","sha1","extern"}
+  Decodable = {"sha256","x509","extern"}
   Depth = 2
 INIT MCInit
 NEXT MCNext
